@@ -5,7 +5,9 @@ package referenceclient
 import (
 	"bytes"
 	"context"
+	"crypto/sha1"
 	"encoding/base64"
+	"encoding/hex"
 	"encoding/json"
 	"errors"
 	"fmt"
@@ -393,6 +395,16 @@ func verifC13SameSx(a, b vsx) bool {
 	return sa.String() == sb.String()
 }
 
+// the last argument is the SHA-1 of the canonical print of the others: the encoder output a
+// round-trip case carries belongs to the structured input it carries (a shrunk or edited
+// case is ill-formed, not a disagreement)
+func verifC13DigestOK(args []vsx) bool {
+	var sb strings.Builder
+	vL(args[:len(args)-1]...).print(&sb)
+	sum := sha1.Sum([]byte(sb.String()))
+	return hex.EncodeToString(sum[:]) == args[len(args)-1].str()
+}
+
 // ---------------------------------------------------------------------------
 // oracle kinds
 // ---------------------------------------------------------------------------
@@ -471,7 +483,7 @@ func verifC13Classes(args []vsx) vsx {
 
 // code msg details trailers marshal-oracle table block(from the real encoder) -> (block, feedback, feedback)
 func verifC13WebRT(args []vsx) vsx {
-	if !verifC13TableOK(args[5]) {
+	if len(args) != 8 || !verifC13DigestOK(args) || !verifC13TableOK(args[5]) {
 		return verifC13BadCase()
 	}
 	block := args[6].str()
@@ -484,7 +496,7 @@ func verifC13WebRT(args []vsx) vsx {
 
 // code msg details marshal-oracle table status-trailers(from the real encoder) -> (map, feedback)
 func verifC13GrpcRT(args []vsx) vsx {
-	if !verifC13TableOK(args[4]) {
+	if len(args) != 7 || !verifC13DigestOK(args) || !verifC13TableOK(args[4]) {
 		return verifC13BadCase()
 	}
 	h := http.Header{}
